@@ -141,6 +141,8 @@ func (c *Conn) Read(p []byte) (int, error) {
 	t.call()
 	if t.resp.n > 0 {
 		raceAcquire(ioSyncAddr())
+		// as internal/poll does for the detector: the read wrote p[:n]
+		raceWriteRange(unsafe.Pointer(&p[0]), t.resp.n)
 	}
 	return t.resp.n, t.resp.err
 }
@@ -151,13 +153,16 @@ func (c *Conn) Write(p []byte) (int, error) {
 	if t == nil {
 		return 0, errors.New("simrt.Conn used outside a simulation")
 	}
-	b := make([]byte, len(p))
-	for i := 0; i < len(p); i++ {
-		b[i] = p[i]
-	}
+	// The bytes are taken when the write is GRANTED, not when it is requested: like write(2), which reads the
+	// caller's buffer when the system call runs. A buffer that another task refills in between (a recycled or
+	// shared buffer) therefore goes out with the other task's bytes, as it can on a real connection.
 	raceReleaseMerge(ioSyncAddr())
-	t.req = request{kind: opWrite, conn: c, buf: b}
+	t.req = request{kind: opWrite, conn: c, buf: p}
 	t.call()
+	// as internal/poll does for the detector: the write read p
+	if len(p) > 0 {
+		raceReadRange(unsafe.Pointer(&p[0]), len(p))
+	}
 	return t.resp.n, t.resp.err
 }
 
@@ -267,7 +272,7 @@ func (n *Net) grantWrite(t *Task) string {
 		t.resp.err = ErrConnClosed
 		return "closed"
 	}
-	b := t.req.buf
+	b := snapshotNoRace(t.req.buf)
 	if f, ok := c.WriteFaults[idx]; ok {
 		acc := f.Accept
 		// a failed write never reports all bytes as written
@@ -354,3 +359,14 @@ func (c *Conn) Term() (int, time.Duration, bool) { return c.term, c.FirstTermAt,
 
 // Sim returns the simulation.
 func (c *Conn) Sim() *Sim { return c.net.s }
+
+// snapshotNoRace copies a task's buffer in the scheduler (the task is parked; the detector must not see this read).
+//
+//go:norace
+func snapshotNoRace(p []byte) []byte {
+	b := make([]byte, len(p))
+	for i := 0; i < len(p); i++ {
+		b[i] = p[i]
+	}
+	return b
+}
